@@ -41,6 +41,7 @@ def main(argv=None) -> int:
     except ImportError as e:
         print('ANALYSIS-ERROR property=%s no checker module: %s' % (prop, e))
         return 2
+    chk = None
     try:
         F = facts_mod.load(a.repo)
         chk = Check(prop, F, a.tier)
@@ -61,6 +62,13 @@ def main(argv=None) -> int:
                     st['entries'], st['mutants'], st['benign'], len(st['skipped']))) if st.get('ran') else st.get('reason')))
         return finish(chk, seed=seed, evidence_dir=a.evidence_dir, quiet=a.quiet)
     except AnalysisError as e:
+        # what was established before the analysis had to stop is still reported: a violation outranks the analysis error
+        if chk is not None and any(o.verdict == 'violated' for o in chk.obs):
+            chk.floors = {}
+            chk.notes.append('analysis stopped early: %s' % e)
+            rc = finish(chk, seed=seed, evidence_dir=a.evidence_dir, quiet=a.quiet)
+            print('ANALYSIS-ERROR property=%s %s' % (prop, e))
+            return rc if rc == 1 else 2
         print('ANALYSIS-ERROR property=%s %s' % (prop, e))
         return 2
     except Exception as e:  # internal error: never a verdict
